@@ -43,6 +43,9 @@ import DdsModel.Proofs.SharedExp
 import DdsModel.Proofs.SharedExpTie
 import DdsModel.Proofs.QuantBits
 import DdsModel.Proofs.QuantBits64
+import DdsModel.Proofs.TrapEncSplit
+import DdsModel.Proofs.FormatTables
+import DdsModel.TrapEncSeeds
 namespace Dds.C15
 open Dds Dds.EncTotal
 
@@ -634,5 +637,390 @@ example : CF32.ofNat 3 = QuantBits.k3 ∧ CF32.ofNat 15 = QuantBits.k15 ∧ CF32
 -- the loop guard can cut the loop short, and `max_iter` cuts it when the guard never does
 example : refineIters (fun i => i < 2) 10 10 0 = 2 ∧ refineIters (fun _ => true) 4 100 0 = 4 := by
   decide
+
+/-! ##########################################################################################################
+## Section M (branch `wM`): the slicing and index arithmetic of the ENCODER loops does not panic
+
+Trapping mirrors (`TrapEnc.lean`, `TrapEncBlk.lean`, `TrapEncSplit.lean`: the loops written once more with operators
+that return `Option`, `none` = the Rust code panics in the `checked` profile — slice range, `copy_from_slice` of
+unequal lengths, `chunks(0)`, `split_at`, `expect`, `assert!` / `debug_assert!`, `usize` / `u32` overflow, division by
+zero, `Vec` capacity overflow) of `for_each_chunk`, `copy_directly`, `uncompressed_untyped`, `uncompressed_universal`,
+`uncompressed_universal_dither`, `uncompressed_universal_subsample`, `for_each_f32_rgba_rows`, `bi_planar_universal`,
+`block_universal` + `get_4x4_*`, `SplitView::{new, get}`, `ImageView::{is_contiguous, rows, cropped}`,
+`encode_parallel`, `EncoderSet::encode`.  Each theorem: for EVERY view the public API can construct
+(`TrapEnc.VOK`: C20's invariant `C20.Inv` — established by `ImageView::new`, `new_with` and `cropped`:
+`C20.new_with_inv`, `C20.crop_spec` — with ANY row pitch ≥ the row bytes, any `w, h < 2^32` including 0×0, 1×1 and
+sizes not divisible by the block size; plus two facts about Rust values: a slice has at most `isize::MAX` bytes, a
+`usize` is below `2^64`), every one of the 12 input colours and every option, the mirror is `some` of the write sizes
+of `EncLen.lean` — so C10's length theorems and `write_fault_general` above hold for the trapping semantics.
+What is computed per pixel / block is not part of the mirrors (total functions: the quantiser theorems above, C13,
+and the sampled float bodies).  Buffer sizes and cadences are `SrcConsts.*`, regenerated from the source on every run.
+############################################################################################################ -/
+
+end Dds.C15
+namespace Dds.C15
+open Dds Dds.TrapEnc
+
+/-- a `w × h` view of `bpp` bytes per pixel with `extra` bytes of row padding (0: contiguous), for the `example`s -/
+def exView (w h bpp extra : Nat) : View := ⟨0, (w * bpp + extra) * (h - 1) + w * bpp, w, h, bpp, w * bpp + extra⟩
+/-- a row wider than the staging buffer of `uncompressed_universal`, whatever its size is tuned to -/
+def exWide : Nat := SrcConsts.UNIVERSAL_BUFFER_PIXELS + 88
+/-- a row of which two no longer fit the staging buffer -/
+def exHalf : Nat := SrcConsts.UNIVERSAL_BUFFER_PIXELS / 2 + 44
+
+/-- the tuning constants of the loops (staging buffers, report cadences), as extracted from the source by
+`tools/extract_consts.py`, satisfy what the theorems below need: every staging buffer holds at least one pixel of
+every colour / encoded format (so `chunks(n)` never gets `n = 0` and `buffer_pixels - fill_pixels` makes progress), the
+sub-sampled encoder's block buffer holds the blocks of a full chunk, the dithering buffer is at least as aligned as
+every encoded pixel, no report cadence is zero.  Retuning a constant re-proves everything below for the new value. -/
+theorem loop_constants_ok : TrapEnc.ConstsOK := TrapEnc.constsOK
+
+/-- **`for_each_chunk` and its three callers.**  For every view `v` of colour `c` (contiguous or strided with any
+pitch), every staging buffer of `bufLen ≤ 2^32` elements with `1 ≤ epp ≤ bufLen` elements per pixel, and every
+`copy_to_buffer` closure that accepts `p` source pixels into `p` buffer pixels (`CopyOK`):
+`for_each_chunk` hands `process_chunk` exactly the chunks of `EncLen.lean` — `chunkLens` of all pixels on the
+contiguous path, `chunksRowsAux` (fill / flush across rows, final flush) on the strided path — there are
+`ceil(w·h / buffer_pixels)` of them on both paths, each of 1 … `buffer_pixels` pixels; `row_pitch * height`,
+`y * row_pitch + bytes_per_row`, `(fill + write) * epp` never overflow, no slice leaves `data` / `buffer`, the inner
+`while` loop terminates within `row.len() + 1` iterations.  Hence (`copy_directly`, `uncompressed_untyped` with a
+colour-converting or BGR line closure of the input's precision, `uncompressed_universal::<Out>`) are `some` of
+`chunksContig` / `chunksRows` with the buffers of the source, the progress fraction `chunk_index / chunk_count` never
+exceeds 1, and the `as_rgba_f32` fast path for aligned RGBA-F32 input changes nothing. -/
+theorem chunk_loops_trapfree (v : View) (c : Color) (hv : VOK v c) (hc : c.OK) :
+    (∀ bufLen epp copyT, 1 ≤ epp → epp ≤ bufLen → bufLen ≤ 4294967296 → CopyOK copyT (bufLen / epp) v.bpp epp →
+      forEachChunkT v bufLen epp copyT = some ((chunkPx v (bufLen / epp)).map (· * epp)) ∧
+      (chunkPx v (bufLen / epp)).length = divCeil (v.w * v.h) (bufLen / epp) ∧
+      ∀ p ∈ chunkPx v (bufLen / epp), 1 ≤ p ∧ p ≤ bufLen / epp) ∧
+    copyDirectlyT v c =
+      some (if v.pitch = v.w * v.bpp then [v.w * v.h * v.bpp]
+            else chunksRows v.w v.h (SrcConsts.COPY_BUFFER_BYTES / v.bpp) v.bpp) ∧
+    (∀ k : UntypedLine, k.Fits c →
+      uncompressedUntypedT v c k =
+        some (if v.pitch = v.w * v.bpp then chunksContig (v.w * v.h) (SrcConsts.UNTYPED_BUFFER_BYTES / k.bpe) k.bpe
+              else chunksRows v.w v.h (SrcConsts.UNTYPED_BUFFER_BYTES / k.bpe) k.bpe)) ∧
+    (∀ aligned size prim, 1 ≤ size → size ≤ 65536 → (prim = 1 ∨ (prim ≠ 0 ∧ size % prim = 0)) →
+      uncompressedUniversalT v c aligned size prim =
+        some (if v.pitch = v.w * v.bpp then chunksContig (v.w * v.h) SrcConsts.UNIVERSAL_BUFFER_PIXELS size
+              else chunksRows v.w v.h SrcConsts.UNIVERSAL_BUFFER_PIXELS size)) := by
+  obtain ⟨k1, k2, k3, k4, _⟩ := constsOK
+  refine ⟨fun bufLen epp copyT h1 h2 h3 h4 => ?_, copyDirectlyT_eq hv hc k1,
+    fun k hk => uncompressedUntypedT_eq hv hc hk k2 k3,
+    fun aligned size prim h1 h2 h3 => uncompressedUniversalT_eq hv hc aligned ⟨h1, h2⟩ h3 k4 k3⟩
+  have hbp : 1 ≤ bufLen / epp := (Nat.one_le_div_iff (by omega)).2 h2
+  exact ⟨forEachChunkT_eq hv h1 h2 h3 h4, chunkPx_length hbp, chunkPx_bounds hbp⟩
+
+/-- non-vacuity (stated with the constants of the source, so that retuning a buffer does not break an `example`): a
+3-row RGBA-U8 view wider than the staging buffer into a 2-byte format through `uncompressed_universal` — contiguous and
+with 8 bytes of row padding — gives the writes of `EncLen.lean`; so does a row that spans three fills of the buffer;
+the 1 × 1 view with an absurd pitch and the 0 × 0 view are fine; a view that violates the invariant (data shorter than
+its rows) IS a panic of the mirror -/
+example :
+    uncompressedUniversalT (exView exWide 3 4 0) ⟨.rgba, 1⟩ false 2 2 =
+      some (chunksContig (exWide * 3) SrcConsts.UNIVERSAL_BUFFER_PIXELS 2) ∧
+    uncompressedUniversalT (exView exWide 3 4 8) ⟨.rgba, 1⟩ false 2 2 =
+      some (chunksRows exWide 3 SrcConsts.UNIVERSAL_BUFFER_PIXELS 2) ∧
+    uncompressedUniversalT (exView (2 * exWide + 200) 2 4 8) ⟨.rgba, 1⟩ false 2 2 =
+      some (chunksRows (2 * exWide + 200) 2 SrcConsts.UNIVERSAL_BUFFER_PIXELS 2) ∧
+    2 ≤ (chunksRows exWide 3 SrcConsts.UNIVERSAL_BUFFER_PIXELS 2).length ∧
+    uncompressedUniversalT ⟨0, 16, 1, 1, 16, 9223372036854775807⟩ ⟨.rgba, 4⟩ true 16 4 = some [16] ∧
+    uncompressedUniversalT ⟨0, 0, 0, 0, 4, 0⟩ ⟨.rgba, 1⟩ false 2 2 = some [] ∧
+    copyDirectlyT (exView 600 3 16 4) ⟨.rgba, 4⟩ = some (chunksRows 600 3 (SrcConsts.COPY_BUFFER_BYTES / 16) 16) ∧
+    uncompressedUntypedT (exView 1500 2 4 8) ⟨.rgba, 1⟩ (.convert ⟨.rgb, 1⟩ false) =
+      some (chunksRows 1500 2 (SrcConsts.UNTYPED_BUFFER_BYTES / 3) 3) ∧
+    uncompressedUniversalT ⟨0, 7000, 600, 3, 4, 2400⟩ ⟨.rgba, 1⟩ false 2 2 = none := by
+  decide +kernel
+
+/-- the hypotheses are satisfiable: the views of the example satisfy `VOK` (shown for the strided one), and a
+colour-converting closure fits its input -/
+example : VOK ⟨0, 7216, 600, 3, 4, 2408⟩ ⟨.rgba, 1⟩ ∧ exView 600 3 4 8 = ⟨0, 7216, 600, 3, 4, 2408⟩ ∧ (⟨.rgba, 1⟩ : Color).OK ∧
+    (UntypedLine.convert ⟨.rgb, 1⟩ false).Fits ⟨.rgba, 1⟩ :=
+  ⟨⟨⟨by decide, by decide, by decide, by decide, by decide, fun h => by simp at h, by decide, fun _ => by decide⟩,
+    rfl, by decide, by decide⟩, rfl, Or.inl rfl, rfl, fun h => by cases h⟩
+
+/-- **seed C15g would have failed `chunk_loops_trapfree`.**  `Seeds.uncompressedUniversalT_C15g` is
+`uncompressed_universal` over the mutated strided branch of `/verif/seeded/C15g` ("flush if the row no longer fits,
+then copy the whole row"): a strided row wider than the staging buffer panics (`buffer[..600]` of 512), and even where
+it does not panic (rows of which two do not fit: one chunk per row) the chunks are not those of the loop that exists;
+contiguous input is untouched.  (A strided 300-pixel image of more than 2048 rows also trips the progress
+`debug_assert!` in the variant — more chunks than `chunk_count` —: `#eval` gives `none` for 300 × 5000; left out of
+the `example` because the kernel needs 10 s for it.)  Seed C12i (head / rest rewrite with one flush per row) does not
+panic but loses the middle part of a row that spans three fills: fewer bytes than `surface_bytes`. -/
+example :
+    Seeds.uncompressedUniversalT_C15g (exView exWide 3 4 8) ⟨.rgba, 1⟩ false 2 2 = none ∧
+    Seeds.uncompressedUniversalT_C15g (exView exHalf 3 4 8) ⟨.rgba, 1⟩ false 2 2 =
+      some (List.replicate 3 (exHalf * 2)) ∧
+    uncompressedUniversalT (exView exHalf 3 4 8) ⟨.rgba, 1⟩ false 2 2 =
+      some (chunksRows exHalf 3 SrcConsts.UNIVERSAL_BUFFER_PIXELS 2) ∧
+    List.replicate 3 (exHalf * 2) ≠ chunksRows exHalf 3 SrcConsts.UNIVERSAL_BUFFER_PIXELS 2 ∧
+    Seeds.uncompressedUniversalT_C15g (exView exWide 3 4 0) ⟨.rgba, 1⟩ false 2 2 =
+      some (chunksContig (exWide * 3) SrcConsts.UNIVERSAL_BUFFER_PIXELS 2) ∧
+    ((Seeds.uncompressedUniversalT_C12i (exView (2 * exWide + 200) 2 4 8) ⟨.rgba, 1⟩ false 2 2).map List.sum).getD 0
+      < (2 * exWide + 200) * 2 * 2 ∧
+    (Seeds.uncompressedUniversalT_C12i (exView (2 * exWide + 200) 2 4 8) ⟨.rgba, 1⟩ false 2 2).isSome = true := by
+  decide +kernel
+
+/-- **`uncompressed_universal_dither`.**  For every view, colour, encoded pixel of `size ≤ BUFFER_PIXELS · 8` bytes
+with alignment at most that of the `u64` staging buffer: `some` of the per-row chunk writes of `EncLen.chunksPerRow`
+with `chunk_pixels = min(BUFFER_PIXELS, buffer bytes / size)`.  In particular the two error lines of
+`width + 2·padding` elements are indexed inside their bounds by `current[off .. off + n]`,
+`next[off - 1 .. off + n + 1]` and by `next[i - 1], next[i], next[i + 1]` within a chunk — for `width = 1` and the
+empty image too —, `cast::from_bytes_mut::<Out>(encoded)` gets whole elements, `chunk_count = height ·
+ceil(width·bpp / chunk_size)` does not overflow and is never exceeded, `chunk_size ≠ 0`. -/
+theorem dither_loop_trapfree (v : View) (c : Color) (hv : VOK v c) (hc : c.OK) (aligned : Bool)
+    (size align prim : Nat) (hs : 1 ≤ size)
+    (hs2 : size ≤ SrcConsts.DITHER_BUFFER_PIXELS * SrcConsts.DITHER_ENCODED_ELEM_BYTES)
+    (ha : align ≤ SrcConsts.DITHER_ENCODED_ELEM_BYTES) (hp : prim = 1 ∨ size % prim = 0) :
+    ditherT v c aligned size align prim =
+      some (chunksPerRow v.w v.h
+        (min SrcConsts.DITHER_BUFFER_PIXELS
+          (SrcConsts.DITHER_BUFFER_PIXELS * SrcConsts.DITHER_ENCODED_ELEM_BYTES / size)) size) := by
+  obtain ⟨_, _, k3, _, k5, _⟩ := constsOK
+  exact ditherT_eq hv hc aligned ⟨hs, hs2⟩ ha hp k5 k3
+
+/-- 600 × 2 strided RGBA-U8 into a 3-byte format; a 1-pixel-wide image into `[u16; 4]`; the empty image; an encoded
+pixel larger than the staging buffer (`chunk_pixels = 0`) or more aligned than it IS a panic of the mirror -/
+example :
+    ditherT (exView 600 2 4 8) ⟨.rgba, 1⟩ false 3 1 1 =
+      some (chunksPerRow 600 2 (min SrcConsts.DITHER_BUFFER_PIXELS
+        (SrcConsts.DITHER_BUFFER_PIXELS * SrcConsts.DITHER_ENCODED_ELEM_BYTES / 3)) 3) ∧
+    ditherT (exView 1 2 4 4) ⟨.rgba, 1⟩ false 8 2 2 = some [8, 8] ∧
+    ditherT ⟨0, 0, 0, 0, 4, 0⟩ ⟨.rgba, 1⟩ false 8 2 2 = some [] ∧
+    ditherT (exView 1 2 4 4) ⟨.rgba, 1⟩ false
+      (SrcConsts.DITHER_BUFFER_PIXELS * SrcConsts.DITHER_ENCODED_ELEM_BYTES + 1) 2 2 = none ∧
+    ditherT (exView 1 2 4 4) ⟨.rgba, 1⟩ false 8 (SrcConsts.DITHER_ENCODED_ELEM_BYTES + 1) 2 = none := by
+  decide +kernel
+
+/-- **`uncompressed_universal_subsample` + `process_subsample`.**  For every view, colour and block width
+`2 ≤ bw ≤ BUFFER_PIXELS` (2 and 8 occur): `some` of `EncLen.chunksSubsample` with `chunk_pixels = BUFFER_PIXELS / bw ·
+bw` — a positive multiple of the block width (`C10.subsample_chunk_ok`) —: the block buffer of `BUFFER_PIXELS / 2`
+elements holds the `ceil(p / bw)` blocks of every chunk; in `process_subsample` `data[..full]`, `data[full..]`,
+`last_block[..rest]`, `data[data.len() - 1]` and `out[full.len()]` are in range for the partial block at the end of a
+row (also for `width < bw`, `width = 1`). -/
+theorem subsample_loop_trapfree (v : View) (c : Color) (hv : VOK v c) (hc : c.OK) (aligned : Bool)
+    (bw blockBytes prim : Nat) (hbw : 2 ≤ bw) (hbw2 : bw ≤ SrcConsts.SUBSAMPLE_BUFFER_PIXELS) (hbb : blockBytes ≤ 65536)
+    (hp : prim = 1 ∨ blockBytes % prim = 0) :
+    subsampleT v c aligned bw blockBytes prim =
+      some (chunksSubsample v.w v.h (SrcConsts.SUBSAMPLE_BUFFER_PIXELS / bw * bw) bw blockBytes) ∧
+    1 ≤ SrcConsts.SUBSAMPLE_BUFFER_PIXELS / bw * bw ∧ (SrcConsts.SUBSAMPLE_BUFFER_PIXELS / bw * bw) % bw = 0 := by
+  obtain ⟨_, _, _, _, _, _, _, k8, _, k10, _⟩ := constsOK
+  refine ⟨subsampleT_eq hv hc aligned ⟨hbw, hbw2⟩ hbb hp k8 k10, ?_, Nat.mul_mod_left ..⟩
+  have hq1 : 1 ≤ SrcConsts.SUBSAMPLE_BUFFER_PIXELS / bw := (Nat.one_le_div_iff (by omega)).2 hbw2
+  have : 1 * 1 ≤ SrcConsts.SUBSAMPLE_BUFFER_PIXELS / bw * bw := Nat.mul_le_mul hq1 (by omega)
+  omega
+
+/-- 1025 × 2 strided RGBA-U8 into a 2×1 format of 4 bytes (with the 512-pixel buffer: two full chunks and a chunk of
+one pixel = one partial block per row); RGB-F32 of width 1 into R1_UNORM (8×1 blocks of 1 byte); a block width of 1 IS
+a panic (`assert!(block_width >= 2)`).  **Seed C10g** (`chunk_pixels = min(.., 4096 / bpp)`, odd for 12-byte pixels)
+does not panic, but its writes are not those of `EncLen.lean`: more than the 2400 bytes of the surface for 400 × 3
+RGB-F32 → YUY2 (2412 with the 512-pixel buffer), so the equation of `subsample_loop_trapfree` fails for the mutated
+loop. -/
+example :
+    subsampleT (exView 1025 2 4 7) ⟨.rgba, 1⟩ false 2 4 1 =
+      some (chunksSubsample 1025 2 (SrcConsts.SUBSAMPLE_BUFFER_PIXELS / 2 * 2) 2 4) ∧
+    subsampleT (exView 1 2 12 3) ⟨.rgb, 4⟩ false 8 1 1 = some [1, 1] ∧
+    subsampleT (exView 1 2 12 3) ⟨.rgb, 4⟩ false 1 1 1 = none ∧
+    (Seeds.subsampleT_C10g (exView 400 3 12 0) ⟨.rgb, 4⟩ false 2 4 1).isSome = true ∧
+    Seeds.subsampleT_C10g (exView 400 3 12 0) ⟨.rgb, 4⟩ false 2 4 1 ≠
+      some (chunksSubsample 400 3 (SrcConsts.SUBSAMPLE_BUFFER_PIXELS / 2 * 2) 2 4) ∧
+    ((Seeds.subsampleT_C10g (exView 400 3 12 0) ⟨.rgb, 4⟩ false 2 4 1).map List.sum).getD 0 > 2400 ∧
+    (subsampleT (exView 400 3 12 0) ⟨.rgb, 4⟩ false 2 4 1).map List.sum = some 2400 ∧
+    (PixelInfo.block 4 2 1).surfIdeal 400 3 = 2400 := by
+  decide +kernel
+
+/-- **`bi_planar_universal` over `for_each_f32_rgba_rows`.**  For every view and colour, plane-1 samples of
+`s1 ≤ 4096` bytes and plane-2 samples of `s2 ≤ 4` bytes: an odd width or height is refused (`InvalidSize`, inner
+`none`) before anything is allocated or written; otherwise `some` of `EncLen.writesBiPlanar`.  `report_frequency =
+ceil(2^20 / max(2·width, 1))` is never zero (the empty image included: the repaired F10), so `group_index %
+report_frequency` cannot divide by zero; `Vec::with_capacity((w/2)·(h/2))` stays below `isize::MAX` bytes because
+`w·h ≤ data.len()`; the 2×2 cell indices `y·width + 2·macro_x + x` stay inside the f32 row-pair buffer and
+`plane1_buffer`; `plane2` has exactly `plane2_len` elements at the end (`debug_assert_eq!`); the row iterator of
+`for_each_f32_rgba_rows` is consumed exactly (`expect("Image has too few rows")`, `debug_assert!(rows.next()
+.is_none())`). -/
+theorem biplanar_loop_trapfree (v : View) (c : Color) (hv : VOK v c) (hc : c.OK) (s1 prim1 s2 prim2 : Nat)
+    (hs1 : s1 ≤ 4096) (hs2 : s2 ≤ 4) (hp1 : prim1 = 1 ∨ s1 % prim1 = 0) (hp2 : prim2 = 1 ∨ s2 % prim2 = 0) :
+    biPlanarT v c s1 prim1 s2 prim2 =
+      some (if v.w % 2 ≠ 0 ∨ v.h % 2 ≠ 0 then none else some (writesBiPlanar v.w v.h s1 s2)) ∧
+    (∀ bh, 1 ≤ bh → bh ≤ 65536 → forEachRowsT v c bh = some (v.w * bh, rowGroups v.h bh)) := by
+  obtain ⟨_, _, _, _, _, _, _, _, _, _, k11, _⟩ := constsOK
+  exact ⟨biPlanarT_eq hv hc hs1 hs2 hp1 hp2 k11, fun bh h1 h2 => forEachRowsT_eq hv hc ⟨h1, h2⟩⟩
+
+/-- P010-like planes (2 and 4 bytes) on a strided 6 × 4 view; an odd width is refused; the empty image writes the
+empty plane 2; plane-2 samples of 9 exabytes would be a capacity overflow -/
+example :
+    biPlanarT ⟨0, 105, 6, 4, 4, 27⟩ ⟨.rgba, 1⟩ 2 2 4 2 = some (some [24, 24, 24]) ∧
+    biPlanarT ⟨0, 101, 5, 4, 4, 27⟩ ⟨.rgba, 1⟩ 2 2 4 2 = some none ∧
+    biPlanarT ⟨0, 0, 0, 0, 4, 0⟩ ⟨.rgba, 1⟩ 2 2 4 2 = some (some [0]) ∧
+    biPlanarT ⟨0, 105, 6, 4, 4, 27⟩ ⟨.rgba, 1⟩ 2 2 9223372036854775807 1 = none := by
+  decide +kernel
+
+/-- **`block_universal` + `get_4x4_*`.**  For every view and colour, `bw × bh` blocks (`≤ 256` each way) of
+`bb ≤ 65536` bytes, every non-zero report frequency and every `encode_block` that reads at most a `bw × bh` block at the
+start of the slice it is handed, rows `row_pitch` apart (`EncBlockOK`; the `get_4x4_*` readers every BC closure uses
+satisfy it for 4 × 4): `some` of `EncLen.writesBlock`.  Full blocks get `&rows[bi·bw ..]` with
+`3·width + 4 ≤ len`; the partial block at the right edge is gathered from `rows[bi·bw + i·width ..][.. width % bw]`
+into `block_data[i·bw .. (i+1)·bw]` for `i < bh` — for every width including `width < bw` —; the rows missing at the
+bottom are copied from the first row of the rest inside the buffer (`copy_within(..width, i·width)`);
+`encoded_buffer[block_index]` is in range; `block_index` never exceeds `block_count = ceil(w/bw)·ceil(h/bh)`. -/
+theorem block_rows_trapfree (v : View) (c : Color) (hv : VOK v c) (hc : c.OK) :
+    (∀ encT bw bh bb freq, EncBlockOK encT bw bh → 1 ≤ bw → bw ≤ 256 → 1 ≤ bh → bh ≤ 256 → bb ≤ 65536 → freq ≠ 0 →
+      blockUniversalT encT v c bw bh (bw * bh) bb freq = some (writesBlock v.w v.h bw bh bb)) ∧
+    EncBlockOK get4x4T 4 4 ∧
+    (∀ bb quality, bb ≤ 65536 → block4x4T v c bb quality = some (writesBlock v.w v.h 4 4 bb)) := by
+  obtain ⟨_, _, _, _, _, _, _, _, _, _, _, k12⟩ := constsOK
+  refine ⟨fun encT bw bh bb freq hok h1 h2 h3 h4 h5 h6 => blockUniversalT_eq hv hc hok ⟨h1, h2⟩ ⟨h3, h4⟩ h5 h6,
+    get4x4T_ok, fun bb quality hbb => ?_⟩
+  unfold block4x4T
+  exact blockUniversalT_eq (bw := 4) (bh := 4) hv hc get4x4T_ok (by omega) (by omega) hbb (bcReportFrequency_ne k12 quality)
+
+/-- 9 × 6 strided (partial block right and below), 1 × 1, empty; a reader that looks one row too far (`5·pitch`) is
+out of range in the last block column, i.e. `EncBlockOK` is what makes the theorem go through -/
+example :
+    block4x4T ⟨0, 231, 9, 6, 4, 39⟩ ⟨.rgba, 1⟩ 8 0 = some [24, 24] ∧
+    block4x4T ⟨0, 16, 1, 1, 16, 19⟩ ⟨.rgba, 4⟩ 16 3 = some [16] ∧
+    block4x4T ⟨0, 0, 0, 0, 16, 0⟩ ⟨.rgba, 4⟩ 16 3 = some [] ∧
+    blockUniversalT (fun len pitch => idxLen len (5 * pitch)) ⟨0, 231, 9, 6, 4, 39⟩ ⟨.rgba, 1⟩ 4 4 16 8 1 = none := by
+  decide +kernel
+
+/-- **`SplitView::{new, get}` and `ImageView::cropped`.**  For every view, support record with a `NonZeroU8` split
+height, dithering and quality: the trapping `get_fragment_height` (`fragment_pixels / width`, `/ split_height`,
+`* split_height` in `u64`) and `SplitView::new` (`div_ceil`) are `some` of C14's wrapping models; `get(i)` is `Some`
+exactly for `i < len` — `index * fragment_height` does not overflow `u32`, `debug_assert!(start_y < height)` holds,
+`end_y - start_y` does not underflow, the rectangle passes `cropped`'s `assert!`, its `usize` arithmetic does not
+overflow and `data[start..end]` is in range — and the fragment is again a view the loops accept (`VOK`: same pitch,
+full width, rows `[y, y + f.h)` of C14's `SplitView.get`), non-empty when a fragment height was chosen. -/
+theorem split_view_trapfree (v : View) (c : Color) (hv : VOK v c) (sup : Option Support) (dith : Dithering)
+    (q : Quality) (hwf : ∀ s, sup = some s → s.WF) :
+    getFragmentHeightT v.w v.h sup dith q = some (getFragmentHeight v.w v.h sup dith q) ∧
+    SplitView.newT v.w v.h sup dith q = some (SplitView.new v.w v.h sup dith q) ∧
+    ∀ i, ((SplitView.new v.w v.h sup dith q).len ≤ i →
+        SplitView.getT (SplitView.new v.w v.h sup dith q) v i = some none) ∧
+      (i < (SplitView.new v.w v.h sup dith q).len →
+        ∃ f, SplitView.getT (SplitView.new v.w v.h sup dith q) v i = some (some f) ∧ VOK f c ∧ f.w = v.w ∧
+          f.pitch = v.pitch ∧
+          ∃ y, (SplitView.new v.w v.h sup dith q).get i = some (y, f.h) ∧ y + f.h ≤ v.h ∧
+            ((SplitView.new v.w v.h sup dith q).fragmentHeight ≠ none → 0 < f.h)) := by
+  refine ⟨getFragmentHeightT_eq _ _ _ _ _ hwf, SplitView.newT_eq _ _ _ _ _ hwf, fun i => ?_⟩
+  obtain ⟨h1, h2⟩ := SplitView.getT_eq hv sup dith q hwf i
+  refine ⟨h1, fun hi => ?_⟩
+  obtain ⟨f, e1, e2, e3, e4, y, e5, e6, e7, _⟩ := h2 hi
+  exact ⟨f, e1, e2, e3, e4, y, e5, e6, e7⟩
+
+/-- a 100 × 203 strided RGBA-U8 image with BC1's support record (fragments of 2^12 / 2^8 / 2^8 pixels) at quality High: 51 fragments of height 4 (the last of 3); fragment 50
+starts at row 200; `get(51)` is `None`; cropping outside the image IS the documented panic -/
+example :
+    SplitView.newT 100 203 (some (supBc .colorAndAlpha (.fragment 12 8 8))) .none .high = some ⟨100, 203, 51, some 4⟩ ∧
+    SplitView.getT ⟨100, 203, 51, some 4⟩ ⟨0, 82614, 100, 203, 4, 407⟩ 50 =
+      some (some ⟨81400, 1214, 100, 3, 4, 407⟩) ∧
+    SplitView.getT ⟨100, 203, 51, some 4⟩ ⟨0, 82614, 100, 203, 4, 407⟩ 51 = some none ∧
+    croppedT ⟨0, 82614, 100, 203, 4, 407⟩ 0 200 100 4 = none ∧
+    (supBc .colorAndAlpha (.fragment 12 8 8)).WF := by
+  refine ⟨by decide +kernel, by decide +kernel, by decide +kernel, by decide +kernel, ?_⟩
+  intro sh h
+  simp only [supBc, Option.some.injEq] at h
+  subst h; decide
+
+/-- **`encode_parallel`.**  For every view, colour, 4 × 4 block format of `bb ≤ 16` bytes per block, support record
+with a `NonZeroU8` split height whose preferred fragment is the entire image or at most `2^48` pixels (`SupOK`; checked
+for all 73 rows of `Split.lean`'s table at all four qualities by `parallel_support_table`), dithering and quality:
+the mirror is `some`; with one fragment it is the sequential encoder on the image; otherwise every
+`split.get(i).expect(..)` succeeds, `surface_bytes(fragment)` is `Some` and `Vec::with_capacity(bytes)` is below
+`isize::MAX`, the fragment is encoded by the block loop without a panic, `debug_assert_eq!(buffer.len(), bytes)` holds
+(C10's `block_len` for the trapping semantics), the heights submitted to `ParallelProgress` never exceed its total
+`height + 1`, and the writes on the real writer are the fragments' surface sizes in index order, fragment `i` having
+the height C14's `SplitView.get i` says.  (`TrapEnc.encodeParallelT_eq` is the same statement for ANY sequential
+encoder that is trap-free on full-width views and writes `surface_bytes` — every family by `encode_loops_trapfree`.) -/
+theorem parallel_fragments_trapfree (v : View) (c : Color) (hv : VOK v c) (hc : c.OK) (bb quality : Nat)
+    (hbb : bb ≤ 16) (sup : Option Support) (dith : Dithering) (q : Quality) (hok : ∀ s, sup = some s → SupOK s) :
+    ∃ ws, encodeParallelT (fun f => block4x4T f c bb quality) (.block bb 4 4) v sup dith q = some ws ∧
+      ((SplitView.new v.w v.h sup dith q).len = 1 → ws.sum = (PixelInfo.block bb 4 4).surfIdeal v.w v.h) ∧
+      ((SplitView.new v.w v.h sup dith q).len ≠ 1 →
+        ∃ hs : List Nat, hs.length = (SplitView.new v.w v.h sup dith q).len ∧
+          ws = hs.map ((PixelInfo.block bb 4 4).surfIdeal v.w) ∧
+          ∀ i k, (SplitView.new v.w v.h sup dith q).get i = some k → hs[i]? = some k.2) := by
+  obtain ⟨_, _, _, _, _, _, _, _, _, _, _, k12⟩ := constsOK
+  apply encodeParallelT_eq hv _ _ (by simp [PixelInfo.WF]; omega) sup dith q (fun s hs => (hok s hs).1)
+  · intro f hf _
+    refine ⟨_, ?_, C10.block_len f.w f.h 4 4 bb (by omega) (by omega)⟩
+    unfold block4x4T
+    exact blockUniversalT_eq (bw := 4) (bh := 4) hf hc get4x4T_ok (by omega) (by omega) (by omega)
+      (bcReportFrequency_ne k12 quality)
+  · exact block_fragment_surface hv.inv.w_lt hv.inv.h_lt hbb hok
+
+/-- every row of `Split.lean`'s support table (all 73 format names) has a `NonZeroU8` split height and a preferred
+fragment of at most `2^48` pixels at every quality, or the entire image — `SupOK` for every format -/
+theorem parallel_support_table : ∀ (f : C19.Format) (s : Support), supportOf f.name = some (some s) → SupOK s := by
+  have h : ∀ f : C19.Format, supportCheck f.name = true := C19.forall_format (by decide +kernel)
+  exact fun f s hs => supOK_of_check hs (h f)
+
+/-- 100 × 203 strided as BC1 (8 bytes per block), quality High: 51 fragment buffers, 50 of 25 blocks × 8 bytes and
+the same for the last (3 rows pad to one block row); together the 10 200 bytes of the surface -/
+example :
+    (encodeParallelT (fun f => block4x4T f ⟨.rgba, 1⟩ 8 0) (.block 8 4 4) ⟨0, 82614, 100, 203, 4, 407⟩
+      (some (supBc .colorAndAlpha (.fragment 12 8 8))) .none .high).map (fun ws => (ws.length, ws.sum)) = some (51, 10200) ∧
+    (PixelInfo.block 8 4 4).surfIdeal 100 203 = 10200 := by
+  decide +kernel
+
+/-- **the dispatch table**: for all 73 formats × 12 input colours × 4 dithering options (complete evaluation over
+C19's pinned encoder table): the format's layout is one the loops handle (`pxOKb`), `pick_encoder` finds an encoder
+(`expect("all color formats to be supported")`), its colour set contains the input colour (the `assert!` "Picked the
+wrong encoder" of `Encoder::encode`), and `Body.Matches` — which loop an encoder of the table runs, transcribed by
+reading — covers the picked encoder. -/
+theorem encoder_dispatch_table : ∀ (f : C19.Format) (c : C19.ColorFormat) (d : C19.Dithering),
+    dispatchCheck f c d = true := by
+  have h : ∀ f : C19.Format,
+      (C19.ColorFormat.all.all fun c => C19.Dithering.all.all fun d => dispatchCheck f c d) = true :=
+    C19.forall_format (by decide +kernel)
+  intro f c d
+  have h1 := List.all_eq_true.mp (h f) c (C19.ColorFormat.mem_all c)
+  exact List.all_eq_true.mp h1 d (C19.Dithering.mem_all d)
+
+/-- **encode_loops_trapfree** (assembled).  For EVERY encodable format `f`, input colour `c` (12), dithering option
+`d`: `EncoderSet::encode` picks an encoder `e` without panicking, whose colour set contains `c`; and for EVERY body
+`b` that encoder can run (`Body.Matches`: which of the seven loops, with everything the table does not pin left open;
+at least one exists), EVERY view `v` of that colour (`VOK`: any `w, h < 2^32`, contiguous or strided with any pitch ≥
+the row bytes) and either alignment of the input: the mirror of the body returns `some` — no slice out of range, no
+`usize` / `u32` overflow, no zero divisor, no failing `assert!` / `debug_assert!` / `expect`, every inner loop
+terminates — with either the `InvalidSize` refusal, exactly for a bi-planar format and an odd size, before anything is
+written, or write sizes `ws` that add up to `surface_bytes`; and then for every writer that fails after `k` bytes:
+`Err(Io)` iff `k < surface_bytes`, `Ok` iff `surface_bytes ≤ k`, `min k surface_bytes` bytes accepted. -/
+theorem encode_loops_trapfree (f : C19.Format) (s : C19.EncSet) (hs : C19.encoderSet f = some s)
+    (c : C19.ColorFormat) (d : C19.Dithering) :
+    ∃ e, pickEncoderT s c d = some e ∧ e.colors.contains c = true ∧
+      (∃ b, Body.Matches s.ctor f.row.px e b) ∧
+      ∀ b, Body.Matches s.ctor f.row.px e b → ∀ (v : View), VOK v (colorOf c) → ∀ aligned : Bool,
+        ∃ r, b.runT v (colorOf c) aligned = some r ∧
+          (r = none ↔ (∃ p1 p2 sx sy, f.row.px = .biPlanar p1 p2 sx sy) ∧ (v.w % 2 ≠ 0 ∨ v.h % 2 ≠ 0)) ∧
+          ∀ ws, r = some ws → ws.sum = f.row.px.surfIdeal v.w v.h ∧
+            ∀ k, ((EncTotal.runWrites (some k) ws).1 = .ioError ↔ k < f.row.px.surfIdeal v.w v.h) ∧
+              ((EncTotal.runWrites (some k) ws).1 = .ok ↔ f.row.px.surfIdeal v.w v.h ≤ k) ∧
+              (EncTotal.runWrites (some k) ws).2 = min k (f.row.px.surfIdeal v.w v.h) := by
+  obtain ⟨hpx, e, he, hcol, hb⟩ := dispatch_of_check hs (encoder_dispatch_table f c d)
+  refine ⟨e, he, hcol, hb, fun b hm v hv aligned => ?_⟩
+  obtain ⟨r, h1, h2, h3⟩ := Body.runT_eq hm hpx hcol hv aligned
+  refine ⟨r, h1, h2, fun ws hws => ⟨h3 ws hws, fun k => ?_⟩⟩
+  have := write_fault_general ws k
+  rw [h3 ws hws] at this
+  exact this
+
+/-- non-vacuity of the assembled theorem: R8G8B8A8_UNORM from RGBA-U8 picks `copy_directly` (one write of the whole
+data for a contiguous view), from RGB-U8 the colour conversion, B5G6R5 with colour dithering the Floyd–Steinberg body,
+NV12 the bi-planar body, BC1 the block body; `Body.Matches` holds for them; the view of the first example is `VOK` -/
+example :
+    (pickEncoderT ⟨.plain, [.copy C19.rgbaU8, .convert C19.rgbaU8, .universal, .ditherCA]⟩ C19.rgbaU8 .none).map
+      (·.colors) = some (.single C19.rgbaU8) ∧
+    (pickEncoderT ⟨.plain, [.copy C19.rgbaU8, .convert C19.rgbaU8, .universal, .ditherCA]⟩ C19.rgbU8 .none).map
+      (·.colors) = some (.ofPrec .u8) ∧
+    (pickEncoderT ⟨.plain, [.universal, .ditherC]⟩ C19.rgbaF32 ⟨true, false⟩).map (·.kind) = some .fsDither ∧
+    Body.Matches .plain (.fixed 4) (.copy C19.rgbaU8) .copy ∧
+    Body.Matches .plain (.fixed 2) .ditherC (.dither 2 2 2) ∧
+    Body.Matches .biPlanar (.biPlanar 1 2 2 2) .universal (.biPlanar 1 1 2 1) ∧
+    Body.Matches .bc (.block 8 4 4) (.bcCA C19.wJoint) (.block 8 1) ∧
+    (Body.copy.runT ⟨0, 7200, 600, 3, 4, 2400⟩ (colorOf C19.rgbaU8) false = some (some [7200])) := by
+  refine ⟨by decide +kernel, by decide +kernel, by decide +kernel, .copy 4 _ _ (by decide),
+    .dither 2 2 2 _ (by omega) (Or.inr rfl), .biPlanar 1 2 1 1 _ (Or.inl rfl) (Or.inl rfl), .block 8 1 _,
+    by decide +kernel⟩
+
+end Dds.C15
+namespace Dds.C15
 
 end Dds.C15
